@@ -56,6 +56,7 @@ def anchors(kind, tier="quick"):
     add(c.dn_from_cal(y, 1, c.month_len(y, 1) - 1), ["hms", 24, 0, 0], [0, 0])     # 24:00 form
     add(c.dn_from_cal(y, 3, 1), ["hf", 6, 0.25], [0, 0])                            # decimal-hour form
     add(c.dn_from_cal(y, 12, 1), ["hmf", 23, 50, 0.5], [0, 0])                      # decimal-minute form
+    add(c.dn_from_cal(y, 1, c.month_len(y, 1)) - 1, ["hms", 19, 0, 0], [-5, 0])    # = 31 Jan 00:00Z, local date the 30th
     add(c.dn_from_cal(2000, 1, 1), ["hms", 0, 0, 0], [0, 0])
     if tier != "quick":
         for yy in (2015, 2016, 2017):
